@@ -42,7 +42,7 @@ class Ctx:
                 exc = DeviceError(f"fault@{i}:{dev.name}.{op}")
                 self.raised.append(exc)
                 raise exc
-            if kind in ("fail", "fail_late"):
+            if kind in ("fail", "fail_late", "fail_if_stopped"):
                 self.timeline.append(("fault", i, kind, dev.name, op))
                 return kind
         return None
@@ -107,7 +107,8 @@ def make_status(ctx, label, policy, fault=None, on_finish=None):
     ctx.results[ctx.last_op] = st
     st.op_index = ctx.last_op
     st.on_finish = on_finish
-    ok = fault is None
+    ok = fault is None or fault == "fail_if_stopped"  # 'fail_if_stopped': fine unless the mover is stopped in flight (as ophyd does)
+    st._fail_if_stopped = fault == "fail_if_stopped"
     kind = policy[0]
     if fault == "fail_late" and kind == "now":
         kind, policy = "delay", ("delay", 0.25)
@@ -217,7 +218,7 @@ class FakeMotor(_Base):
         if self._moving is not None and not self._moving.done:
             st, self._moving = self._moving, None
             st.on_finish = None  # interrupted: did not arrive
-            st.finish(True)
+            st.finish(not getattr(st, "_fail_if_stopped", False))
         return self._ret(None)
 
     def read(self):
